@@ -367,6 +367,36 @@ theorem backward_after_full_search (net : Net W) (hnet : WFNet net) (hu : Unique
       rw [hrun] at hd
       exact ⟨l, g, g', y, rfl, rfl, hr, (run_isDist net hnet s hs t y).1 hd⟩
 
+/-- paths requested after a search that was STOPPED (at another target `t0`, or by a cut-off): for every node `t ≠ s`
+that the search had settled (`visite`) before it stopped, `run_routing_backward(t)` returns a route from `s` to `t`
+whose weights sum to the true distance. (Nodes labelled but not settled may get a tentative route:
+`session_outputs_ok` / `path_cut_sound`.) -/
+theorem backward_settled_optimal (net : Net W) (hnet : WFNet net) (hu : UniqueIds net) (geo : GeoT) (s : Nat)
+    (hs : s < net.n) (t0 : Option Nat) (cut : Option W) (t : Nat)
+    (hv : (runForward net s t0 cut).1.vis t = true) (hts : t ≠ s) :
+    ∃ l g g' y, runBackwardT net geo (runForward net s t0 cut).1 t = .path (l ++ [t]) ⟨g ++ [geo.pos t], []⟩ ∧
+      Route net geo.toGeo s l g g' t y ∧ IsDist net s t y := by
+  have hg : Good net s (runForward net s t0 cut).1 := forward_good net hnet s t0 cut net.n _ [] (good_init net s hs)
+  obtain ⟨_, h2⟩ := runBackward_spec net hu geo.toGeo s _ hg t
+  obtain ⟨hinv, rk, K, hp⟩ := hg
+  obtain ⟨x, hx⟩ := hinv.j5 t hv
+  have hsome := hp.p3 t x hts hx
+  cases hpt : (runForward net s t0 cut).1.pred t with
+  | none => rw [hpt] at hsome; cases hsome
+  | some p =>
+    obtain ⟨l, g, g', y, hd, hr, hb⟩ := h2 p hpt
+    refine ⟨l, g, g', y, ?_, hr, settled_label_isDist net hnet s _ hinv t y hv hd⟩
+    rw [runBackwardT_eq, hb]; rfl
+
+/-- the `output_dict` of `shortest_path(s, t, cut, output_dict)` (and of any other search): every entry
+`(s, u) ↦ y` written is the true distance from `s` to `u`, and does not exceed the cut-off. (The target itself is not
+written: the loop stops before recording it.) -/
+theorem output_dict_entries_sound (net : Net W) (hnet : WFNet net) (s : Nat) (hs : s < net.n) (t0 : Option Nat)
+    (cut : Option W) (u : Nat) (y : W) (h : (u, y) ∈ (runForward net s t0 cut).2) : IsDist net s u y ∧ Within cut y := by
+  have hinv : Inv net s (runForward net s t0 cut).1 := forward_inv net hnet s t0 cut net.n _ [] (inv_init net s hs)
+  obtain ⟨a, b, c⟩ := forward_out_settled net t0 cut net.n (St.init s) [] (fun p hp => by cases hp) (u, y) h
+  exact ⟨settled_label_isDist net hnet s _ hinv u y a b, c⟩
+
 /-! ### the hypotheses are satisfiable by a non-trivial network, and the model computes on it -/
 
 /-- 0 –(w 0, two-way)– 1 ; edge 1 stored 2→1 but only travelled 1→2 (orientation −1) with a bent polyline;
@@ -392,5 +422,51 @@ example : GeoOK demo demoGeo := by
 example : shortestPath demo demoGeo 0 2 none = .path [0, 1, 2] [(0, 0), (1, 0), (1, 1), (2, 0)] := by decide +kernel
 example : shortestPath demo demoGeo 2 0 none = .none := by decide +kernel
 example : shortestPath demo demoGeo 0 0 none = .none := by decide +kernel
+
+/-! ### the same through the track operators, with awkward geometries; a session; a cut-off below the distance -/
+
+/-- observation number `k` (the tag identifies the vertex occurrence: the returned track starts with the first edge's own
+vertex and ends with `Obs(target.coord)`; under `GeoOK` their positions are those of the two nodes) -/
+def ob (k : Nat) : Seq.Obs := ⟨k, 0, []⟩
+
+/-- nodes 0,1,2 at observations 0,1,2. Edge 0: 0–1 two-way, weight 0, with a REPEATED vertex (10, 10, 11);
+edge 1: stored 2→1, travelled 1→2 only (`SENS_INVERSE`), three vertices, carrying an analytical feature;
+edges 2 and 3: PARALLEL, equal weight 5, 1→2, a two-vertex and a one-vertex geometry. -/
+def demoT : GeoT :=
+  { pos := ob,
+    geom := fun i => if i = 0 then ⟨[ob 10, ob 10, ob 11], []⟩ else if i = 1 then ⟨[ob 20, ob 21, ob 22], [("speed", 0)]⟩
+                     else if i = 2 then ⟨[ob 30, ob 31], []⟩ else ⟨[ob 40], []⟩ }
+def demo4 : Net Int :=
+  { n := 3, edges := [⟨0, 0, 1, 0, 0⟩, ⟨1, 2, 1, 1, -1⟩, ⟨2, 1, 2, 5, 1⟩, ⟨3, 1, 2, 5, 1⟩] }
+
+/-- `track + (edge_geom > 1)` twice, the second polyline reversed; the result has no analytical feature although edge 1 has -/
+example : shortestPathT demo4 demoT 0 2 none = .path [0, 1, 2] ⟨[ob 10, ob 10, ob 22, ob 21, ob 2], []⟩ := by decide +kernel
+example : shortestPathT demo4 demoT 1 0 none = .path [1, 0] ⟨[ob 11, ob 10, ob 0], []⟩ := by decide +kernel
+example : shortestPathT demo4 demoT 2 0 none = .none := by decide +kernel
+
+/-- a session: backward before any search; a path with the target given as an object and an `output_dict`; a distance-only
+search followed by backward passes to two targets; source = target; an unreachable target after a reachable one;
+a cut-off below the true distance of the target -/
+example : (runSession demo4 demoT [0, 1, 2] Sess.start
+      [.back (.id 2), .path (.id 0) (.obj 2) none true, .dist (.obj 0) none none false, .back (.id 1), .back (.obj 2),
+       .path (.id 1) (.id 1) none false, .path (.id 2) (.id 0) none false, .path (.id 1) (.id 2) (some 0) false]).1 =
+    [.attrErr,
+     .path (.path [0, 1, 2] ⟨[ob 10, ob 10, ob 22, ob 21, ob 2], []⟩) (some 1),
+     .dists [some 0, some 0, some 1],
+     .path (.path [0, 1] ⟨[ob 10, ob 10, ob 1], []⟩) (some 0),
+     .path (.path [0, 1, 2] ⟨[ob 10, ob 10, ob 22, ob 21, ob 2], []⟩) (some 1),
+     .path .none (some 0),
+     .path .none none,
+     .path (.path [1, 2] ⟨[ob 22, ob 21, ob 2], []⟩) (some 1)] := by decide +kernel
+
+/-- with a cut-off below the true distance the path returned may be a tentative one: 0 →1→ 1 →1→ 2 and 0 →5→ 2, cut-off 0:
+the search stops when node 1 (label 1 > 0) is popped, node 2 still carries the label 5 through the direct edge.
+`path_cut_sound`: a real route, weight 5 = the reported value ≥ the true distance 2, and 5 exceeds the cut-off. -/
+def demoCut : Net Int := { n := 3, edges := [⟨0, 0, 1, 1, 1⟩, ⟨1, 1, 2, 1, 1⟩, ⟨2, 0, 2, 5, 1⟩] }
+def demoCutGeo : Geo Nat := { pos := fun v => v, line := fun i => if i = 0 then [0, 1] else if i = 1 then [1, 2] else [0, 7, 2] }
+example : shortestPath demoCut demoCutGeo 0 2 (some 0) = .path [0, 2] [0, 7, 2] := by decide +kernel
+example : shortestDistance demoCut 0 2 (some 0) = some 5 := by decide +kernel
+example : shortestPath demoCut demoCutGeo 0 2 none = .path [0, 1, 2] [0, 1, 2] := by decide +kernel
+example : shortestPath demoCut demoCutGeo 0 2 (some 1) = .path [0, 1, 2] [0, 1, 2] := by decide +kernel
 
 end TV.C07
